@@ -392,6 +392,12 @@ func opFrUn(fails *[]string, a fr.Element) string {
 		}
 		outs = append(outs, frHex(&c))
 	}
+	// the exact root the routine returns (the model mirrors the loop of the implementation)
+	if r == nil {
+		outs = append(outs, "nil")
+	} else {
+		outs = append(outs, frHex(&root))
+	}
 	for _, c := range []struct {
 		f func(*fr.Element)
 		k uint8
